@@ -215,6 +215,10 @@ M("c08-ls-keeps-stale-revert", "C08", "flexstack/geonet/location_table.py",
   "                    if entry._pv_received:  # pylint: disable=protected-access\n                        entry._pv_received = False",
   "                    if False:\n                        entry._pv_received = False",
   "revert: a pending lookup keeps an outdated entry (and neighbour) alive")
+M("c16-dereg-subs-outside-lock-revert", "C16", "flexstack/facilities/local_dynamic_map/ldm_service.py",
+  "            # In the same critical section: nobody sees the consumer gone but part of its subscriptions left.\n            for subscription in stale:\n                self.remove_subscription(subscription)\n        return registered",
+  "        for subscription in stale:\n            self.remove_subscription(subscription)\n        return registered",
+  "revert: deregistration removes the consumer's subscriptions outside the lock, one by one")
 
 # ---------------------------------------------------------------- C09
 M("c09-no-sig", "C09", "flexstack/security/certificate.py",
